@@ -979,6 +979,15 @@ def confirmation_programs(rng, ds, base):
         dflt = {"kind": "default", "names": []}
         for n in sorted({-1, -rng.randint(1, base["total"]), -(base["total"] + 1)}):
             out.append({"ops": [] if rng.random() < 0.6 else [gen_slice(rng)], "rd": ["head", n, None, dflt], "stream": "head-negative"})
+    # EMPTY frames taken from a handle that has rows: head(0) with index default / False / a name, all columns and a subset with the
+    # categorical columns, on the handle and on a slice; a row filter / filter that keeps nothing is the empty-selection case
+    if base["total"] > 0:
+        cats_ = [c for c in base["cat_cols"] if c in base["cols"]]
+        sub = (cats_ + ["id"]) if cats_ else ["id", "u"]
+        for idx in ({"kind": "default", "names": []}, {"kind": "false", "names": []}, {"kind": "str", "names": ["u"]}):
+            out.append({"ops": [], "rd": ["head", 0, None, idx], "stream": "head-zero"})
+            out.append({"ops": [gen_slice(rng)], "rd": ["head", 0, list(sub), idx], "stream": "head-zero"})
+        out.append({"ops": [["pickle"]] if ds["open"] != "filelike" else [["copy"]], "rd": ["head", 0, list(sub), {"kind": "default", "names": []}], "stream": "head-zero"})
     # two names over REQUIRED numeric columns only: with an optional column as a level the real code stores raw values as
     # level codes and the frame cannot even be inspected safely (segfault seen) - recorded in the finding, not re-run here
     distinct_nonempty = len(set(g[0] for g in base["rgs"] if g[1] > 0))
